@@ -3,11 +3,12 @@
 # and a few hand mutations are applied, one at a time, in a scratch worktree; the check of the property
 # must report a VIOLATION naming the expected obligation. Also re-runs the unchanged tree (must be clean).
 WT=/tmp/wt/selftest
-OUT=/verif/selftest/RESULTS.txt
+OUT=${SELFTEST_OUT:-/verif/selftest/RESULTS.txt}
+# SKIPPROP=C04 leaves out the cases of one property (partial run; give another SELFTEST_OUT)
 cd /repo && git worktree remove --force $WT 2>/dev/null; git worktree prune; git worktree add --detach $WT HEAD >/dev/null 2>&1 || exit 2
 : > $OUT.tmp
 fail=0
-grep -v '^#' /verif/selftest/cases.txt | while read patch prop kind want; do
+grep -v '^#' /verif/selftest/cases.txt | grep -v " ${SKIPPROP:-NONE} " | while read patch prop kind want; do
   [ -z "$patch" ] && continue
   git -C $WT checkout -q -- .
   if ! git -C $WT apply /verif/selftest/$patch; then echo "$patch $prop APPLY-FAILED" | tee -a $OUT.tmp; continue; fi
